@@ -1,7 +1,7 @@
 (* WireEnc: zeroconf._protocol.outgoing.DNSOutgoing, statement by statement.
    The chunk list `data` is kept as one reversed byte list (appending = consing); positions that
    the code expresses as chunk indexes (_replace_short, rollback) are byte positions here. *)
-From ZC Require Import Model.Base Model.PyRec Model.Dict Model.Re Model.Utf8 Model.Names Gen.Const Gen.DnsPure Gen.Shapes.
+From ZC Require Import Model.Base Model.PyRec Model.Dict Model.Re Model.Utf8 Model.Names Gen.Const Gen.Sites Gen.DnsPure Gen.Shapes.
 
 Record enc := {
   e_rev : bytes;                  (* packet body so far (after the header), reversed *)
@@ -36,9 +36,11 @@ Definition write_utf (st : enc) (s : text) : result enc :=
   if write_utf_rejects n then Raise NamePartTooLong
   else bind (write_byte st n) (fun st' => Ok (write_string st' u))).
 
-Definition write_character_string (st : enc) (b : bytes) : result enc :=
+Definition write_character_string :=
+  Eval cbv beta match delta [sop_apply sop_mirror sop_negate site_enc_string_limit site_enc_string_limit_rhs] in
+  fun (st : enc) (b : bytes) =>
   let n := Z.of_nat (length b) in
-  if 256 <? n then Raise NamePartTooLong
+  if sop_apply (sop_mirror site_enc_string_limit) site_enc_string_limit_rhs n then Raise NamePartTooLong
   else bind (write_byte st n) (fun st' => Ok (write_string st' b)).
 
 Definition names_get (st : enc) (n : text) : Z :=
@@ -133,12 +135,14 @@ Definition write_rdata (st : enc) (r : pyrec) : result enc :=
   end.
 
 (* _check_data_limit_or_rollback *)
-Definition check_limit_or_rollback (st : enc) (start : enc) : enc * bool :=
+Definition check_limit_or_rollback :=
+  Eval cbv beta iota delta [sop_apply site_enc_fits sop_mirror sop_negate site_enc_rollback_names] in
+  fun (st : enc) (start : enc) =>
   let limit := if e_allow_long st then C_MAX_MSG_ABSOLUTE else C_MAX_MSG_TYPICAL in
-  if e_size st <=? limit
+  if sop_apply site_enc_fits (e_size st) limit
   then ({| e_rev := e_rev st; e_size := e_size st; e_names := e_names st; e_allow_long := false |}, true)
   else ({| e_rev := e_rev start; e_size := e_size start;
-           e_names := filter (fun ni => snd ni <? e_size start) (e_names st);
+           e_names := filter (fun ni => sop_apply (sop_negate site_enc_rollback_names) (snd ni) (e_size start)) (e_names st);
            e_allow_long := false |}, false).
 
 Definition write_question (multicast : bool) (st : enc) (q : pyrec) : result (enc * bool) :=
